@@ -140,6 +140,13 @@ public:
     /** As the message-handler thread does for one node: ProcessMessages (one message per call) + SendMessages, repeated until
      *  ProcessMessages reports no more work; skipped when the node is marked fDisconnect (as the real loop does). */
     void Pump(int p);
+    /** Finer-grained stepping for targets that must order events themselves (Pump = repeat {ProcessOnce; SendMessagesTo}):
+     *  ProcessOnce = one ProcessMessages call (at most one queued message handled); returns "more work". No-op (false) for fDisconnect/reaped peers. */
+    bool ProcessOnce(int p);
+    /** One SendMessages call for p, then the send buffer is dropped; a pending auto-pong is queued (not processed). No-op for fDisconnect/reaped peers. */
+    void SendMessagesTo(int p);
+    /** Queue a message without processing it (same as SendRaw(..., pump=false)). */
+    bool Queue(int p, const std::string& type, std::vector<uint8_t> payload) { return SendRaw(p, type, std::move(payload), /*pump=*/false); }
     /** One SendMessages round for every live peer in index order (after Advance: trickle, getdata, MaybeDiscourageAndDisconnect ...). */
     void TickAll();
     /** What the socket thread does with an fDisconnect node: FinalizeNode (once). The CNode object stays (skipped everywhere). */
